@@ -56,7 +56,9 @@ def strategy(tier):
                 spread = [[S.sig(draw(S.fl(0.2, 8.0, 3)) * sscale, 4) for _ in range(p)] for _ in range(n)]
             elif sform == "special":
                 spread = {"Normal": 1.0, "Gamma": 2.0, "NegBinom": 1.0}[kind]
-        wform = draw(st.sampled_from(["none", "none", "array"])) if kind in ("Square", "Normal") else "none"
+        # weights: the loss VALUE with weights is only defined by the statement for Square and Normal, but every kernel accepts
+        # weights, and diff_loss / diff2Loss(..., apply_weighting=False) must then still be the derivatives of the unweighted loss
+        wform = draw(st.sampled_from(["none", "none", "array"]))
         w = [[draw(S.fl(0.1, 3.0, 3)) for _ in range(p)] for _ in range(n)] if wform == "array" else None
         # whole-number spreads / weights handed over as an integer typed array (sigma = np.array([1, 2, 2, 3]))
         spread_dtype = draw(st.sampled_from(["float", "float", "int"]))
@@ -126,8 +128,14 @@ def oracle(case, rec):
     sf = (sp_arr.reshape(-1) if sp_arr is not None else np.full(yf.shape, spread if spread is not None else (default or 0.0)))
     wf = w.reshape(-1) if w is not None else np.ones(yf.shape)
     # ---- loss value
+    if w is not None and kind not in ("Square", "Normal"):
+        # (for the other kernels only the unweighted loss is defined by the statement)
+        wf = np.ones(yf.shape)
+        got = call(key + "/loss", case, obj.loss, yhat.copy(), False)
+        rec.label("loss:apply_weighting=False")
+    else:
+        got = call(key + "/loss", case, obj.loss, yhat.copy())
     ref = sum(refdist.nll(kind, yf[i], mf[i], sf[i], wf[i]) for i in range(len(yf)))
-    got = call(key + "/loss", case, obj.loss, yhat.copy())
     try:
         g = float(got)
     except Exception:
@@ -145,10 +153,14 @@ def oracle(case, rec):
         rec.label("spread:large")
     if not np.isfinite(g) or abs(g - r) > 1e-10 * (abs(r) + sum(abs(float(refdist.nll(kind, yf[i], mf[i], sf[i], wf[i]))) for i in range(len(yf)))) + 1e-12 + cancel:
         raise PropertyViolation(key + "/loss", "loss = %.17g, reference -sum(log density) = %.17g (layout %s)" % (g, r, layout), case)
-    # ---- derivatives (unit weights)
-    if w is None:
+    # ---- derivatives of the UNWEIGHTED loss (with weights present: asked for explicitly with apply_weighting=False)
+    if True:
         for fn, dfun, tag in (("diff_loss", refdist.d1, "diff_loss"), ("diff2Loss", refdist.d2, "diff2Loss")):
-            out = call("%s/%s" % (key, tag), case, getattr(obj, fn), yhat.copy())
+            if w is None:
+                out = call("%s/%s" % (key, tag), case, getattr(obj, fn), yhat.copy())
+            else:
+                tag = tag + "/apply_weighting=False"
+                out = call("%s/%s" % (key, tag), case, getattr(obj, fn), yhat.copy(), False)
             out = np.asarray(out, float)
             if out.size != yf.size:
                 raise PropertyViolation("%s/%s/shape" % (key, tag), "%s returned shape %s for data of shape %s and prediction of shape %s" % (
